@@ -5,7 +5,7 @@ import os
 import vcommon as V
 
 TRUSTED = ['Lean 4 kernel', 'hand-written protocol model MiVerif/Model/BitmapC.lean (abstract bits + ghost runs; the mask arithmetic of bitmap.c is abstracted: a chunk is "the next bits of the run")',
-           'the tie is the step-wise check of the real functions against BitSeq (sequential) plus scheduler search (concurrent); concurrent traces are not validated against the model transition by transition',
+           'tie 1: step-wise check of the real bitmap functions against BitSeq (sequential); tie 2: the log of every atomic operation (CAS, fetch-and, store) on the arena in-use bitmap during concurrent _mi_arena_alloc_aligned / _mi_arena_free under the deterministic scheduler is replayed through BitmapC.exec (proved sound: exec_sound, run_inv); plus scheduler search with end-state oracles',
            'sequentially consistent atomics; hooks/verif_hooks.h + harness/vsched.h']
 
 def run(chk):
@@ -48,17 +48,30 @@ def run(chk):
             ok, log = V.cc_harness(os.path.join(V.HARNESS, 'c14.c'), hc, flags=V.hooked_flags(flags))
             if not ok:
                 chk.broken_tie('C14 harness (hooked, %s) does not compile against the current tree' % tag, log[-1500:]); continue
-            runs = [(chk.seed * 1000 + i, 3 + i % 3, 60 + 20 * (i % 3), (0, 20, 40)[i % 3], (0, 50, 90)[(i // 3) % 3]) for i in range(n)]
-            outs = V.pmap([([hc, 'conc', str(sd), str(nth), str(ops), str(sp), str(stay)], None, 300) for sd, nth, ops, sp, stay in runs])
-            for (sd, nth, ops, sp, stay), (rc, out, err) in zip(runs, outs):
+            # variant 0: the arena functions on a 70-block arena; variant 1: the bitmap functions on a private 3-field bitmap with claims of up to 130 bits
+            runs = [(chk.seed * 1000 + i, 3 + i % 3, 60 + 20 * (i % 3), (0, 20, 40)[i % 3], (0, 50, 90)[(i // 3) % 3], i % 2) for i in range(2 * n)]
+            outs = V.pmap([([hc, 'conc', str(sd), str(nth), str(ops), str(sp), str(stay), '1', str(var)], None, 300) for sd, nth, ops, sp, stay, var in runs])
+            vals = V.pmap([([exe, 'c14c'], 'RUN %s seed %d threads %d\n' % (tag, r[0], r[1]) + o[1], 300) for r, o in zip(runs, outs)]) if okd else [(0, '', '')] * len(runs)
+            for (sd, nth, ops, sp, stay, var), (rc, out, err), (rc2, out2, err2) in zip(runs, outs, vals):
                 chk.count()
-                args = {'harness': 'c14 conc', 'build': tag, 'seed': sd, 'threads': nth, 'ops': ops, 'spurious_pct': sp, 'stay_pct': stay,
-                        'how_to_run': 'gcc -I/repo/include -Iharness %s -DMI_VERIF_HOOKS=\\"/verif/hooks/verif_hooks.h\\" harness/c14.c -lpthread; ./a.out conc %d %d %d %d %d' % (' '.join(flags), sd, nth, ops, sp, stay)}
+                # trace validation: the log of atomic operations on blocks_inuse must be an execution of Model.BitmapC (also for a run that crashed later)
+                if okd:
+                    dl = [l for l in out2.splitlines() if l.startswith('DIFF')]
+                    summ = [l for l in out2.splitlines() if l.startswith('c14cval')]
+                    if dl:
+                        chk.violation('C14/claim_trace_rejected', 'the log of atomic operations on the arena in-use bitmap is not an execution of the claim model (%s build, schedule seed %d): %s' % (tag, sd, dl[0][5:500]),
+                                      {'harness': 'c14 conc', 'build': tag, 'seed': sd, 'threads': nth, 'ops': ops, 'spurious_pct': sp, 'stay_pct': stay, 'events': [l for l in out.splitlines() if l.startswith(('T ', 'INIT'))][:80],
+                                       'how_to_run': 'harness/c14 (hooked, %s) conc %d %d %d %d %d 1 %d | lean/.lake/build/bin/midriver c14c' % (' '.join(flags), sd, nth, ops, sp, stay, var)})
+                    elif summ and 'rejected 0' in summ[0]:
+                        chk.extra['claim_traces_validated'] = chk.extra.get('claim_traces_validated', 0) + 1
+                        chk.extra['claim_trace_events'] = chk.extra.get('claim_trace_events', 0) + int(summ[0].split()[4])
+                args = {'harness': 'c14 conc', 'build': tag, 'seed': sd, 'threads': nth, 'ops': ops, 'spurious_pct': sp, 'stay_pct': stay, 'variant': ('arena', 'private bitmap')[var],
+                        'how_to_run': 'gcc -I/repo/include -Iharness %s -DMI_VERIF_HOOKS=\\"/verif/hooks/verif_hooks.h\\" harness/c14.c -lpthread; ./a.out conc %d %d %d %d %d 0 %d' % (' '.join(flags), sd, nth, ops, sp, stay, var)}
                 if rc != 0 or 'DONE' not in out:
                     chk.violation('C14/conc-crash', 'arena claim code crashed / asserted under schedule seed %d (%s build): %s' % (sd, tag, (err or out)[-300:].replace('\n', ' ')), args); continue
                 for f in [l for l in out.splitlines() if l.startswith('FAIL')]:
                     chk.violation('C14/' + f.split()[1], 'schedule seed %d (%s build, %d threads): %s' % (sd, tag, nth, f[:300]), args)
                 st = dict((l.split()[1], int(l.split()[2])) for l in out.splitlines() if l.startswith('STAT'))
-                chk.distinct(('conc', tag, sd, st.get('points')))
+                chk.distinct(('conc', tag, sd, var, st.get('points')))
                 for k, v in st.items():
                     chk.extra['conc_' + k] = chk.extra.get('conc_' + k, 0) + v
